@@ -15,6 +15,7 @@ type Knobs struct {
 	MidCompile int  `json:"mid_compile,omitempty"` // root runs a Compile every n hand-backs (0: never)
 	GapDays    int  `json:"gap_days,omitempty"`    // root sleeps this long between concurrent and reference pass
 	NoSched    bool `json:"no_sched,omitempty"`    // run client ops sequentially on the root (fault-free baseline)
+	ReuseOpts  bool `json:"reuse_opts,omitempty"`  // the same option VALUES are handed to several Compile / Evaluate calls
 }
 
 // SysVal describes a FHIRPath System value.
